@@ -11,6 +11,7 @@ import (
 	"go/types"
 	"sort"
 	"strings"
+	"sync"
 
 	"golang.org/x/tools/go/ssa"
 )
@@ -80,6 +81,13 @@ type Unit struct {
 	mayPanic     bool
 	lemmaMode    bool
 	roGlobals    []string
+	mu           sync.Mutex
+	failAsserts  map[*Obligation][]*Term
+	branchConds  []*Term
+	branchSeen   map[int]bool
+	sliceCaps    []*Term
+	ptrs         []typedPtr
+	ptrSeen      map[[2]int]bool
 	maps         map[string]*mapLayer
 	Failed   string // set when the unit could not be encoded at all
 }
@@ -330,10 +338,15 @@ func (u *Unit) validFacts(t types.Type, slots []*Term, objBound *Term) []*Term {
 			}
 		case *types.Pointer:
 			mark(slots[i])
-			out = append(out, tb.Ult(slots[i], objBound), tb.Ult(slots[i+1], lim))
+			out = append(out, tb.Ult(slots[i], objBound), tb.Ult(slots[i+1], lim),
+				tb.Implies(tb.Eq(slots[i], tb.BV(32, 0)), tb.Eq(slots[i+1], tb.BV(64, 0)))) // nil is (0,0)
+			out = append(out, u.registerPtr(ut.Elem(), slots[i], slots[i+1])...)
 			i += 2
 		case *types.Slice:
 			mark(slots[i])
+			if !slots[i+3].hasBV && !slots[i+3].IsConst() {
+				u.sliceCaps = append(u.sliceCaps, slots[i+3])
+			}
 			out = append(out, tb.Ult(slots[i], objBound), tb.Ult(slots[i+1], lim),
 				tb.Ule(slots[i+2], slots[i+3]), tb.Ule(slots[i+3], lim),
 				tb.Implies(tb.Eq(slots[i], tb.BV(32, 0)), tb.Eq(slots[i+3], tb.BV(64, 0))))
@@ -728,6 +741,19 @@ func (f *Frame) execBlock(b *ssa.BasicBlock, hdr map[*ssa.BasicBlock]*loopInfo) 
 		switch x := in.(type) {
 		case *ssa.If:
 			c := f.val(x.Cond)[0]
+			if !f.spec && !c.IsConst() && !c.hasBV {
+				g := c
+				if g.Op == "not" {
+					g = g.Args[0]
+				}
+				if !f.u.branchSeen[g.id] {
+					if f.u.branchSeen == nil {
+						f.u.branchSeen = map[int]bool{}
+					}
+					f.u.branchSeen[g.id] = true
+					f.u.branchConds = append(f.u.branchConds, g)
+				}
+			}
 			f.out(b, b.Succs[0], tb.And(f.cur.reach, c), hdr)
 			f.out(b, b.Succs[1], tb.And(f.cur.reach, tb.Not(c)), hdr)
 			return
